@@ -837,6 +837,43 @@ def asked_again_case(idx, first, first_nl, second, second_nl):
     return []
 
 
+def appended_input_case(idx, first, second):
+    """ONE I/O: a first question reads all of `first` (its last line is a valid answer), more input is appended to the same
+    input stream, a second question of the same kind reads it: it sees exactly the appended lines"""
+    from clikit.io import BufferedIO
+
+    label, build = _again_builders()[idx]
+    io = BufferedIO(script_text(list(first), True))
+    io.set_interactive(True)
+    try:
+        build().ask(io)
+        io.fetch_error()
+        io.clear_error()
+        io.append_input(script_text(list(second), True))
+        q2 = build()
+        try:
+            got = ("returned", repr(q2.ask(io)))
+        except Exception as e:
+            got = ("raised", "%s: %s" % (type(e).__name__, e))
+        got_err = io.fetch_error()
+    except Exception as e:
+        return [("appended_input|harness-or-stream-raises", "%s: %r" % (label, e))]
+    io2 = BufferedIO(script_text(list(second), True))
+    io2.set_interactive(True)
+    q3 = build()
+    try:
+        want = ("returned", repr(q3.ask(io2)))
+    except Exception as e:
+        want = ("raised", "%s: %s" % (type(e).__name__, e))
+    want_err = io2.fetch_error()
+    kind = label.split("[")[0]
+    if got != want or got_err != want_err:
+        return [("appended_input|%s|second-question-differs" % kind,
+                 "%s: after a question that read %r, input %r appended to the same stream: the next question gives %r / %r, on a "
+                 "fresh I/O with that input %r / %r" % (label, list(first), list(second), got, got_err[-80:], want, want_err[-80:]))]
+    return []
+
+
 def _bounded_asked_again(ctx, rec):
     builders = _again_builders()
     ctx.check("asked_again",
@@ -853,6 +890,18 @@ def _bounded_asked_again(ctx, rec):
                     for sig, what in asked_again_case(i, first, nl, second, nl):
                         rec.fail(sig, what, {"check": "asked_again", "builder": i, "label": builders[i][0], "first": list(first),
                                              "second": list(second), "nl": nl})
+    # input supplied in portions on one I/O (the first portion ends with a valid answer and is read completely)
+    for i in range(len(builders)):
+        if "attempts=1" in builders[i][0]:
+            continue
+        for first in (("1",), ("zz", "1")):
+            if len(first) > 1 and builders[i][0].startswith("ConfirmationQuestion"):
+                continue  # a confirmation reads one line whatever it says
+            for second in AGAIN_SECOND:
+                ctx.case([builders[i][0], "appended", list(first), list(second)])
+                for sig, what in appended_input_case(i, first, second):
+                    rec.fail(sig, what, {"check": "appended_input", "builder": i, "label": builders[i][0], "first": list(first),
+                                         "second": list(second)})
     ctx.done(exhaustive=True, note=rec.note())
 
 
@@ -881,6 +930,8 @@ def replay_bounded(check_id, failure):
             fails = confirmation_case(w["pattern"], w["default"], w["answer"], w["last_nl"])
         elif kind == "non_interactive":
             fails = non_interactive_case(w["builder"], w["input"])
+        elif kind == "appended_input":
+            fails = appended_input_case(w["builder"], tuple(w["first"]), tuple(w["second"]))
         elif kind == "asked_again":
             fails = asked_again_case(w["builder"], tuple(w["first"]), w["nl"], tuple(w["second"]), w["nl"])
         else:
